@@ -82,6 +82,39 @@ def owner_fn_name(facts, name):
     return name
 
 
+def stable_desc(body, op, depth=0):
+    """description of a value without local numbers (keys must survive unrelated edits)"""
+    t = trace(body, op)
+    if t.fields:
+        real = [f for f in t.fields if not f.startswith("tuple.")]
+        if real:
+            return real[-1]
+    k = t.kind
+    if k == "const":
+        c = t.root[1]
+        if c.const_item:
+            return "const:" + c.const_item.split("::")[-1]
+        return "const:%s" % (c.scalar,)
+    if k == "param":
+        return "param:%s" % (t.root[2] or t.root[1])
+    if k == "upvar":
+        return "upvar:%s" % t.root[1]
+    if k in ("multi", "undef"):
+        return "local:%s" % (t.root[2] or "tmp")
+    if k == "call":
+        return "call:" + short_callee(t.root[1].resolved)
+    if k == "rv" and depth < 4:
+        rv = t.root[1].rv
+        if rv.kind == "bin":
+            return "%s(%s)" % (rv.op.replace("WithOverflow", ""), ",".join(stable_desc(body, o, depth + 1) for o in rv.ops))
+        if rv.kind in ("cast", "use", "un"):
+            return stable_desc(body, rv.ops[0], depth + 1)
+        if rv.kind == "agg":
+            return "agg:" + (rv.j.get("adt") or rv.j.get("ak")).split("::")[-1]
+        return rv.kind
+    return k
+
+
 class PanicSite:
     def __init__(self, body, item, kind, detail):
         self.body = body
@@ -115,10 +148,7 @@ def collect(body, include_overflow=False):
                 if idx:
                     from .facts import Operand
                     o = Operand(idx)
-                    d = "const:%s" % o.scalar if o.kind == "const" else trace(body, o).describe()
-                    ln = Operand(it.j["len"])
-                    lt = trace(body, ln)
-                    d = "index=%s" % d
+                    d = "index=%s" % stable_desc(body, o)
                 out.append(PanicSite(body, it, "bounds", d))
             else:
                 out.append(PanicSite(body, it, msg, ""))
@@ -133,21 +163,17 @@ def collect(body, include_overflow=False):
             if it.is_tracing:
                 continue
             if c.endswith("unwrap") or c.endswith("expect") or c.endswith("unwrap_err"):
-                src = trace(body, it.args[0])
-                d = src.describe() if src.kind != "call" else "call:" + short_callee(src.root[1].resolved)
-                out.append(PanicSite(body, it, c.split("::")[-1], d))
+                out.append(PanicSite(body, it, c.split("::")[-1], stable_desc(body, it.args[0])))
             else:
                 out.append(PanicSite(body, it, "panic", short_callee(c)))
             continue
         if cal in INDEX_CALLS:
-            recv = trace(body, it.args[0])
             ity = it.j.get("argtys", ["", ""])[1] if len(it.j.get("argtys", [])) > 1 else ""
             ity = ity.replace("std::ops::", "")
-            out.append(PanicSite(body, it, "index", "%s[%s]" % (recv.last_field or recv.describe(), ity)))
+            out.append(PanicSite(body, it, "index", "%s[%s]" % (stable_desc(body, it.args[0]), ity)))
             continue
         if any(c == r or c.endswith("::" + r) for r in RANGE_CALLS):
-            recv = trace(body, it.args[0])
-            out.append(PanicSite(body, it, "range", "%s.%s" % (recv.last_field or recv.describe(), c.split("::")[-1])))
+            out.append(PanicSite(body, it, "range", "%s.%s" % (stable_desc(body, it.args[0]), c.split("::")[-1])))
             continue
         if c in TIME_CALLS or (it.callee_full or "") in TIME_CALLS:
             out.append(PanicSite(body, it, "time-arith", short_callee(it.callee_full or c)))
@@ -278,7 +304,7 @@ def try_discharge(body, site, bounds):
             if v is not None and v != 0:
                 return "divisor is the non-zero constant %d" % v
             dt = trace(body, d)
-            if dt.kind == "call" and (dt.root[1].resolved or "").endswith("NonZero::get"):
+            if any(isinstance(st, Term) and st.kind == "call" and (st.resolved or "").endswith("NonZero::get") for st in dt.steps) or (dt.kind == "call" and (dt.root[1].resolved or "").endswith("NonZero::get")):
                 return "divisor is NonZero::get()"
         return None
     if k == "bounds":
